@@ -169,6 +169,24 @@ impl<'tcx> Ctx<'tcx> {
                     }
                 }
             }
+            if let ty::Array(el, _) = inner.kind() {
+                if *el == tcx.types.u8 {
+                    // e.g. the compact `format_args!` template: &[u8; N] in a global allocation
+                    if let Const::Val(mir::ConstValue::Scalar(rustc_middle::mir::interpret::Scalar::Ptr(ptr, _)), _) = c.const_ {
+                        let (prov, off) = ptr.into_raw_parts();
+                        if let Some(rustc_middle::mir::interpret::GlobalAlloc::Memory(a)) = tcx.try_get_global_alloc(prov.alloc_id()) {
+                            let al = a.inner();
+                            let start = off.bytes() as usize;
+                            let end = al.len();
+                            if start <= end {
+                                let bytes = al.inspect_with_uninit_and_ptr_outside_interpreter(start..end);
+                                o.push(("bytes", J::Str(String::from_utf8_lossy(bytes).to_string())));
+                                return J::obj(o);
+                            }
+                        }
+                    }
+                }
+            }
             if let ty::Slice(el) = inner.kind() {
                 if *el == tcx.types.u8 {
                     if let Const::Val(val, _) = c.const_ {
